@@ -131,15 +131,23 @@ def result_ok(S, S0, P, mode, start, end, rank, m, x):
                   z3.Implies(md == 0, skipped), z3.Implies(md == 1, centre), z3.Implies(md == 2, atoms))
 
 
-def residues_ok(S, S0, P, mode, start, end, rank, total, k=None, pos1=None, k1=None):
+def residues_ok(S, S0, P, mode, start, end, rank, rowm, rowx, total, k=None, pos1=None, k1=None):
     lim = nmol(S0)
     h = lambda m, x: z3.And(0 <= m, m < lim, isres(S0, m, x), handled(mode, k, pos1, k1, m, x))      # noqa: E731
-    m2, y2 = z3.Int("m2_"), z3.Const("y2_", NS)
+    i = z3.Int("i_")
     return z3.And(
         z3.ForAll([m_, x_], z3.Implies(h(m_, x_), z3.And(result_ok(S, S0, P, mode, start, end, rank, m_, x_), g(end, m_, x_) <= total))),
-        # no file row serves two residues
-        z3.ForAll([m_, x_, m2, y2], z3.Implies(z3.And(h(m_, x_), h(m2, y2), z3.Or(m_ != m2, x_ != y2)),
-                                               z3.Or(g(end, m_, x_) <= g(start, m2, y2), g(end, m2, y2) <= g(start, m_, x_)))))
+        # ghost: every file row consumed so far is owned by exactly the residue that consumed it
+        z3.ForAll([m_, x_, i], z3.Implies(z3.And(h(m_, x_), g(start, m_, x_) <= i, i < g(end, m_, x_)),
+                                          z3.And(rowm.comps[0][i] == m_, rowx.comps[0][i] == x_))))
+
+
+def no_row_twice(S0, start, end):
+    """the statement: no file row serves two residues"""
+    lim = nmol(S0)
+    m2, y2, i = z3.Int("m2_"), z3.Const("y2_", NS), z3.Int("i_")
+    inr = lambda m, x: z3.And(0 <= m, m < lim, isres(S0, m, x), g(start, m, x) <= i, i < g(end, m, x))      # noqa: E731
+    return z3.ForAll([m_, x_, m2, y2, i], z3.Implies(z3.And(inr(m_, x_), inr(m2, y2)), z3.And(m_ == m2, x_ == y2)))
 
 
 def rest_untouched(S, S0, mode, k=None, pos1=None, k1=None, cur=None, sorted_pos=None, k2=None):
@@ -155,11 +163,19 @@ def rest_untouched(S, S0, mode, k=None, pos1=None, k1=None, cur=None, sorted_pos
     return z3.And(un_res, un_atoms) if k is not None else un_atoms
 
 
-def row_so_far(S, S0, P, rank, k, cur, mol_nodes, start, total, k2):
+def cur_facts(S0, k, cur, mol_nodes):
+    """hints: the residue being read shares no atom with the other residues of its molecule, and the sorted list holds its atoms"""
+    j = z3.Int("j_")
+    return z3.And(z3.ForAll([x_, a_], z3.Implies(z3.And(isres(S0, k, x_), x_ != cur, inG(S0, k, x_, a_)), z3.Not(inG(S0, k, cur, a_)))),
+                  z3.ForAll([j], z3.Implies(z3.And(0 <= j, j < mol_nodes.n), inG(S0, k, cur, slist_get(mol_nodes, j)))))
+
+
+def row_so_far(S, S0, P, rank, rowm, rowx, k, cur, mol_nodes, start, total, k2):
     j = z3.Int("j_")
     a = slist_get(mol_nodes, j)
     return z3.And(total == start + k2, 0 <= start, total <= P.n,
-                  z3.ForAll([j], z3.Implies(z3.And(0 <= j, j < k2), z3.And(g(rank, k, a) == j, vec_is_row(atom(S, k, a).fields["position"], P, start + j)))))
+                  z3.ForAll([j], z3.Implies(z3.And(0 <= j, j < k2), z3.And(g(rank, k, a) == j, vec_is_row(atom(S, k, a).fields["position"], P, start + j)))),
+                  z3.ForAll([j], z3.Implies(z3.And(start <= j, j < total), z3.And(rowm.comps[0][j] == k, rowx.comps[0][j] == cur))))
 
 
 # ---- ghost bookkeeping (keyed to statements of the body) ---------------------------------------------------------------
@@ -173,7 +189,14 @@ def hook_skip(eng, env):
     env["_end"] = _set(env["_end"], env["k"], env["meta_node"], env["total"])
 
 
+def _own(env):
+    rm, rx = env["_rowm"], env["_rowx"]
+    env["_rowm"] = SDict(rm.k, rm.v, rm.dom, [z3.Store(rm.comps[0], env["total"], env["k"])])
+    env["_rowx"] = SDict(rx.k, rx.v, rx.dom, [z3.Store(rx.comps[0], env["total"], env["meta_node"])])
+
+
 def hook_centre(eng, env):
+    _own(env)
     env["_mode"] = _set(env["_mode"], env["k"], env["meta_node"], z3.IntVal(1))
     env["_start"] = _set(env["_start"], env["k"], env["meta_node"], env["total"])
     env["_end"] = _set(env["_end"], env["k"], env["meta_node"], env["total"] + 1)
@@ -185,6 +208,7 @@ def hook_atoms_begin(eng, env):
 
 
 def hook_atom(eng, env):
+    _own(env)
     env["_rank"] = _set(env["_rank"], env["k"], env["mol_node"], env["total"] - env["start"])
 
 
@@ -197,7 +221,7 @@ REG.add(Contract("polyply.src.topology:_coord_parser", params=dict(path=PATH, ex
 REG.add(Contract("polyply.src.linalg_functions:center_of_geometry", params=dict(points=TList(V3)), result=V3, trusted=True,
                  note="numpy.average over the rows (value not interpreted)"))
 
-INV_ARGS = "self, old(self), positions, _mode, _start, _end, _rank, total"
+INV_ARGS = "self, old(self), positions, _mode, _start, _end, _rank, _rowm, _rowx, total"
 ADD = REG.add(Contract(
     "polyply.src.topology:Topology.add_positions_from_file",
     params=dict(self=TOPOLOGY, path=TObj, skip_res=TList(TStr), resolution=TStr),
@@ -205,12 +229,13 @@ ADD = REG.add(Contract(
     axioms={"ghost owner function (definitional extension, consistent because residues share no atom)": "owner_def(self)"},
     raises_when={"OSError": "start < len(positions) and total >= len(positions)"},
     ensures={"every residue was either skipped (flagged build + backmap, untouched), given one file row as its centre (flagged backmap), or "
-             "given one file row per atom, exactly, contiguous and in `index` order (flagged neither); no row serves two residues":
+             "given one file row per atom, exactly, contiguous and in `index` order (flagged neither); a (ghost) function maps every consumed "
+             "file row to THE residue that consumed it, so no row serves two residues":
              f"residues_ok({INV_ARGS})",
              "atoms outside residues read at atom resolution keep all attributes": "rest_untouched(self, old(self), _mode)",
              "nothing else of the topology changes": "frame(self, old(self))"},
     modifies=["self.molecules", "self.box"],
-    ghost_locals={"_mode": GHOST, "_start": GHOST, "_end": GHOST, "_rank": GHOST},
+    ghost_locals={"_mode": GHOST, "_start": GHOST, "_end": GHOST, "_rank": GHOST, "_rowm": TDict(TInt, TInt), "_rowx": TDict(TInt, TNode)},
     ghost={'after:meta_mol.nodes[meta_node]["build"] = True': hook_skip,
            'after:meta_mol.nodes[meta_node]["position"] = positions[total]': hook_centre,
            "after:start = total": hook_atoms_begin,
@@ -219,18 +244,18 @@ ADD = REG.add(Contract(
     loops={0: Loop({"frame": "frame(self, old(self))", "still well-formed": "wf(self)", "cursor": "0 <= total and total <= len(positions)",
                     "molecules read so far": f"residues_ok({INV_ARGS}, k)",
                     "the rest is untouched": "rest_untouched(self, old(self), _mode, k)"},
-                   modifies=["_mode", "_start", "_end", "_rank"]),
+                   modifies=["_mode", "_start", "_end", "_rank", "_rowm", "_rowx"]),
            1: Loop({"frame": "frame(self, old(self))", "still well-formed": "wf(self)", "cursor": "0 <= total and total <= len(positions)",
                     "residues read so far": f"residues_ok({INV_ARGS}, k, _pos1, k1)",
                     "the rest is untouched": "rest_untouched(self, old(self), _mode, k, _pos1, k1)"},
-                   index="k1", modifies=["_mode", "_start", "_end", "_rank"]),
+                   index="k1", modifies=["_mode", "_start", "_end", "_rank", "_rowm", "_rowx"]),
            2: Loop({"frame": "frame(self, old(self))", "still well-formed": "wf(self)",
                     "residues read so far": f"residues_ok({INV_ARGS.replace('total', 'start')}, k, _pos1, k1)",
-                    "atoms of this residue read so far": "row_so_far(self, old(self), positions, _rank, k, meta_node, mol_nodes, start, total, k2)",
+                    "atoms of this residue read so far": "row_so_far(self, old(self), positions, _rank, _rowm, _rowx, k, meta_node, mol_nodes, start, total, k2)",
                     "the rest is untouched": "rest_untouched(self, old(self), _mode, k, _pos1, k1, meta_node, _sorted_pos, k2)",
-                    "this residue": "this_residue(self, old(self), k, meta_node, _mode, _start, start)"},
-                   index="k2", modifies=["_rank"])},
-    spec_fns=dict(wf=wf, owner_def=owner_def, frame=frame, residues_ok=residues_ok, rest_untouched=rest_untouched, row_so_far=row_so_far,
+                    "this residue": "this_residue(self, old(self), k, meta_node, _mode, _start, start) and cur_facts(old(self), k, meta_node, mol_nodes)"},
+                   index="k2", modifies=["_rank", "_rowm", "_rowx"])},
+    spec_fns=dict(no_row_twice=no_row_twice, cur_facts=cur_facts, wf=wf, owner_def=owner_def, frame=frame, residues_ok=residues_ok, rest_untouched=rest_untouched, row_so_far=row_so_far,
                   this_residue=lambda S, S0, k, x, mode, start, st: z3.And(RES.eq(res(S, k, x), res(S0, k, x)), g(mode, k, x) == 2, g(start, k, x) == st)),
     props=("C04",),
     note="center_of_geometry and the coordinate file readers are assumed callees; sorted(d, key=d.get) modelled as a ghost permutation of the keys, non-decreasing in the value"))
